@@ -116,4 +116,43 @@ def append (data : List Nat) (v : Nat) : Except Err (List Nat) :=
 def remove (data : List Nat) (v : Nat) : Except Err (List Nat) :=
   if data.contains v then .ok (data.filter (· != v)) else .error .absent
 
+/-! ### one call on a range object
+
+The operations the check drives (`harness/props/c14.py`): the read accessors `len()`,
+iteration, `as_list()`, `as_set()`, `as_compressed_str()`, re-expansion of the compressed
+string, `in`; and the mutators `append`, `remove`.  `stepOp` gives the state after the call
+and what the call answered. -/
+
+inductive Op
+  | len | iter | list | set | cstr | rexp
+  | has (k : Nat) | app (k : Nat) | rem (k : Nat)
+deriving Repr, DecidableEq
+
+/-- the read accessors: everything except `append` / `remove` -/
+def Op.isRead : Op → Bool
+  | .app _ => false
+  | .rem _ => false
+  | _ => true
+
+inductive Ans
+  | nat (n : Nat) | nats (l : List Nat) | str (s : Str) | bool (b : Bool) | ok | err (e : Err)
+deriving Repr, DecidableEq
+
+def stepOp (data : List Nat) : Op → List Nat × Ans
+  | .len => (data, .nat data.length)
+  | .iter => (data, .nats data)
+  | .list => (data, .nats (sortedSet data))
+  | .set => (data, .nats (sortedSet data))
+  | .cstr => (data, .str (compress data))
+  | .rexp => (data, match parse (compress data) with
+      | .ok d => .nats d
+      | .error e => .err e)
+  | .has k => (data, .bool (data.contains k))
+  | .app k => (match append data k with
+      | .ok d => (d, .ok)
+      | .error e => (data, .err e))
+  | .rem k => (match remove data k with
+      | .ok d => (d, .ok)
+      | .error e => (data, .err e))
+
 end Ccp.Range
